@@ -3,6 +3,7 @@ package ref
 
 import (
 	"io/fs"
+	"os"
 	"path"
 	"path/filepath"
 	"sort"
@@ -102,7 +103,13 @@ func Denotation(root, pattern string) []string {
 			return nil
 		}
 		if !d.Type().IsRegular() {
-			return nil
+			// a symbolic link to a regular file is a file too (symlinked directories are not descended into)
+			if d.Type()&fs.ModeSymlink == 0 {
+				return nil
+			}
+			if info, err := os.Stat(p); err != nil || !info.Mode().IsRegular() {
+				return nil
+			}
 		}
 		rel, _ := filepath.Rel(root, p)
 		rel = filepath.ToSlash(rel)
